@@ -22,8 +22,17 @@ type receivePayloadQueue struct {
 func newReceivePayloadQueue(maxTSNOffset uint32) *receivePayloadQueue {
 	maxTSNOffset = ((maxTSNOffset + 63) / 64) * 64
 
+	// The bitmask is a ring indexed by (tsn/64) % len(tsnBitmask). The index is
+	// only continuous across the 32-bit TSN wrap if the number of words divides
+	// 2^26, so round it up to a power of two. The tracking window itself
+	// (maxTSNOffset) is unchanged.
+	words := uint32(1)
+	for words < maxTSNOffset/64 {
+		words <<= 1
+	}
+
 	return &receivePayloadQueue{
-		tsnBitmask:   make([]uint64, maxTSNOffset/64),
+		tsnBitmask:   make([]uint64, words),
 		maxTSNOffset: maxTSNOffset,
 	}
 }
